@@ -47,34 +47,43 @@ func tokenTypeNames(p *core.Program) (map[string]string, *types.Named) {
 // armChain describes the token-type arms dominating instruction in.
 func (tc *tokenConsumer) armChain(in ssa.Instruction, names map[string]string) string {
 	var chain []string
+	rg := core.RegionOf(tc.fn)
 	blk := in.Block()
-	for d := blk; d != nil; d = d.Idom() {
-		id := d.Idom()
-		if id == nil {
+	for hop := 0; blk != nil && hop < 6; hop++ {
+		for d := blk; d != nil; d = d.Idom() {
+			id := d.Idom()
+			if id == nil {
+				break
+			}
+			ifi := core.BlockIf(id)
+			if ifi == nil {
+				continue
+			}
+			cmp, ok := core.IfCompare(ifi)
+			if !ok || cmp.Op != token.EQL {
+				continue
+			}
+			if !tc.fieldLoad(cmp.X, "Type") {
+				continue
+			}
+			cv := core.ConstVal(cmp.Y)
+			if cv == nil {
+				continue
+			}
+			if core.EdgeDominates(core.Edge{From: id, Succ: 0}, blk) {
+				n := names[cv.ExactString()]
+				if n == "" {
+					n = cv.ExactString()
+				}
+				chain = append([]string{n}, chain...)
+			}
+		}
+		// an arm that was moved into a helper: continue with the arms around the helper's (single) call site
+		g := blk.Parent()
+		if g == tc.fn || !rg.Has(g) || len(rg.Sites(g)) != 1 {
 			break
 		}
-		ifi := core.BlockIf(id)
-		if ifi == nil {
-			continue
-		}
-		cmp, ok := core.IfCompare(ifi)
-		if !ok || cmp.Op != token.EQL {
-			continue
-		}
-		if !tc.fieldLoad(cmp.X, "Type") {
-			continue
-		}
-		cv := core.ConstVal(cmp.Y)
-		if cv == nil {
-			continue
-		}
-		if core.EdgeDominates(core.Edge{From: id, Succ: 0}, blk) {
-			n := names[cv.ExactString()]
-			if n == "" {
-				n = cv.ExactString()
-			}
-			chain = append([]string{n}, chain...)
-		}
+		blk = rg.Sites(g)[0].Block()
 	}
 	if len(chain) == 0 {
 		return "any"
@@ -101,7 +110,7 @@ func union(ms ...map[core.Edge]bool) map[core.Edge]bool {
 // target (before barrier). Returns (ok, witness path when not ok).
 func guardedBy(fn *ssa.Function, from ssa.Instruction, target ssa.Instruction, barrier func(ssa.Instruction) bool, isGuard func(*ssa.If) bool) (bool, []*ssa.BasicBlock) {
 	guards := map[*ssa.If]bool{}
-	for _, b := range fn.Blocks {
+	for _, b := range core.RegionOf(fn).Blocks() {
 		ifi := core.BlockIf(b)
 		if ifi == nil || !isGuard(ifi) {
 			continue
@@ -112,7 +121,6 @@ func guardedBy(fn *ssa.Function, from ssa.Instruction, target ssa.Instruction, b
 			if len(succ.Instrs) == 0 {
 				continue
 			}
-			// start exploring at the beginning of succ: emulate with Reach from a pseudo position
 			if !reachFromBlock(fn, succ, isTarget(target), barrier) {
 				guards[ifi] = true
 			}
@@ -132,32 +140,8 @@ func guardedBy(fn *ssa.Function, from ssa.Instruction, target ssa.Instruction, b
 
 // reachFromBlock: target reachable starting at the first instruction of blk.
 func reachFromBlock(fn *ssa.Function, blk *ssa.BasicBlock, target func(ssa.Instruction) bool, barrier func(ssa.Instruction) bool) bool {
-	seen := map[*ssa.BasicBlock]bool{blk: true}
-	queue := []*ssa.BasicBlock{blk}
-	for len(queue) > 0 {
-		b := queue[0]
-		queue = queue[1:]
-		stop := false
-		for _, in := range b.Instrs {
-			if target(in) {
-				return true
-			}
-			if barrier != nil && barrier(in) {
-				stop = true
-				break
-			}
-		}
-		if stop {
-			continue
-		}
-		for _, s := range b.Succs {
-			if !seen[s] {
-				seen[s] = true
-				queue = append(queue, s)
-			}
-		}
-	}
-	return false
+	_, r := core.ReachFromBlock(fn, blk, target, nil, barrier)
+	return r
 }
 
 func runC03(c *core.Ctx) {
@@ -278,7 +262,7 @@ func runC03(c *core.Ctx) {
 	for _, tc := range consumers {
 		key := core.FuncKey(tc.fn)
 		untagged := core.BoolEdgesWhere(tc.fn, func(v ssa.Value) bool { return tc.fieldLoad(v, "Tagged") }, false)
-		for _, ci := range core.Calls(tc.fn) {
+		for _, ci := range core.CallsR(tc.fn) {
 			name, ok := assemblerCall(ci)
 			if !ok || !isCommit(name) {
 				continue
@@ -319,7 +303,7 @@ func runC03(c *core.Ctx) {
 	}
 	for _, tc := range consumers {
 		key := core.FuncKey(tc.fn)
-		for _, ci := range core.Calls(tc.fn) {
+		for _, ci := range core.CallsR(tc.fn) {
 			name, ok := assemblerCall(ci)
 			if !ok || name != "AssignLink" {
 				continue
@@ -431,7 +415,7 @@ func runC03(c *core.Ctx) {
 			}
 			return false
 		}
-		for _, ci := range core.Calls(tc.fn) {
+		for _, ci := range core.CallsR(tc.fn) {
 			name, ok := assemblerCall(ci)
 			if !ok || (name != "Finish" && name != "AssembleEntry" && name != "AssembleValue") {
 				continue
@@ -455,7 +439,7 @@ func runC03(c *core.Ctx) {
 	c.Rule("C03.keys", "AssembleEntry receives Token.Str of a token tested to be TString in the same epoch; on every path where RelaxedDecode is false it passes a comma-ok lookup of that key in a set whose hit cannot reach AssembleEntry, and an insertion of the same key into that set", 3)
 	for _, tc := range consumers {
 		key := core.FuncKey(tc.fn)
-		for _, ci := range core.Calls(tc.fn) {
+		for _, ci := range core.CallsR(tc.fn) {
 			name, ok := assemblerCall(ci)
 			if !ok || name != "AssembleEntry" {
 				continue
@@ -502,9 +486,13 @@ func runC03(c *core.Ctx) {
 						return false
 					}
 					// same set as the insertion (share a root)
-					ls := core.BackSlice(lk.X, core.SliceOpts{})
+					rgT := core.RegionOf(tc.fn)
+					ls := core.BackSlice(lk.X, core.SliceOpts{Region: rgT})
 					for _, m := range sets {
-						for w := range core.BackSlice(m, core.SliceOpts{}) {
+						if core.Strip(m) == core.Strip(lk.X) {
+							return true
+						}
+						for w := range core.BackSlice(m, core.SliceOpts{Region: rgT}) {
 							if _, isPhi := w.(*ssa.Phi); isPhi && ls[w] {
 								return true
 							}
@@ -530,7 +518,7 @@ func runC03(c *core.Ctx) {
 	c.Rule("C03.uint", "AssignInt of a converted unsigned token value is dominated by an edge implying Token.Uint <= MaxInt64", 1)
 	for _, tc := range consumers {
 		key := core.FuncKey(tc.fn)
-		for _, ci := range core.Calls(tc.fn) {
+		for _, ci := range core.CallsR(tc.fn) {
 			name, ok := assemblerCall(ci)
 			if !ok || name != "AssignInt" || !tc.derivesFromField(ci.Common().Args[0], "Uint") {
 				continue
@@ -571,7 +559,7 @@ func runC03(c *core.Ctx) {
 // guardedByBlocked is guardedBy on the sub-graph without the given edges.
 func guardedByBlocked(fn *ssa.Function, from ssa.Instruction, target ssa.Instruction, barrier func(ssa.Instruction) bool, isGuard func(*ssa.If) bool, blocked map[core.Edge]bool) (bool, []*ssa.BasicBlock) {
 	guards := map[*ssa.If]bool{}
-	for _, b := range fn.Blocks {
+	for _, b := range core.RegionOf(fn).Blocks() {
 		ifi := core.BlockIf(b)
 		if ifi == nil || !isGuard(ifi) {
 			continue
